@@ -2,7 +2,7 @@
 import muxlib, vlib
 
 PROP_FILES = ['Properties/C01']
-EXTRA_OBLIGATION_FILES = ['Proofs/AtomMux', 'Proofs/AtomClient']
+EXTRA_OBLIGATION_FILES = ['Proofs/AtomMux', 'Proofs/AtomClient', 'Proofs/AtomPanel']
 EXTRACT_FILES = ['Extract/Mux']
 PROFILES = ['data', 'data', 'data', 'big', 'mixed']
 N_QUICK, N_THOROUGH = 260, 4000
@@ -112,3 +112,8 @@ def replay(ctx, verdict):
     if str(ctx.replay.get('kind', '')).startswith('relay'):
         return relaylib.replay(ctx, verdict, 'C01')
     return _replay_before_relay(ctx, verdict)
+
+
+# Proofs/AtomPanel.v is listed because the session-pair model takes "the k connections belong to ONE session at each end"
+# as given: on the server that is ActiveUser.GetSession's look-up-or-create being one critical section (C15's obligation)
+TRUSTED = TRUSTED + ['all connections of one session id are attached to one Session object at the server: generated obligation GetSession_lookup_authorise_create_one_step (Proofs/AtomPanel.v), C15']
